@@ -33,6 +33,43 @@ def oracle_comments(out_on, out_off, cfg_on):
                 return 'without its comments item %d is %r, comment-off output has %r' % (i, x, y)
         return 'without its comments the output has %d items, the comment-off output %d' % (len(a), len(b))
     o = fu.resolved_options(cfg_on)
+    if '<!--' not in out_off and '<!--' not in o['output.newline'] + o['output.indent'] + o['output.baseIndent']:
+        # where the added text sits (C12_comments_additive): every comment stands directly after a closing tag
+        # (comment.after) or directly before an opening tag (comment.before)
+        toks = [t for t, _ in fu.scan(out_on)]
+        rev = {}
+        for k, v in (o.get('markup.attributes') or {}).items():
+            rev[str(v).lower()] = k.rstrip('*').lower()
+        trig = set(x.lower() for x in (o.get('comment.trigger') or []))
+
+        def has_trigger(open_tok):
+            names = set()
+            for nm, _ in open_tok[2]:
+                n = nm.lower()
+                names.add(n)
+                names.add(rev.get(n, n))
+            return bool(names & trig)
+        closed = {}
+        stack = []
+        strict = True       # every opening tag without '/' has its closing tag (no html-style self-closed tags)
+        for i, t in enumerate(toks):
+            if t[0] == 'open' and not t[3]:
+                stack.append(t)
+            elif t[0] == 'close':
+                if stack and stack[-1][1] == t[1]:
+                    closed[i] = stack.pop()
+                else:
+                    strict = False
+        if stack:
+            strict = False
+        for i, t in enumerate(toks):
+            if t[0] != 'comment':
+                continue
+            after_ok = bool(o['comment.after']) and i > 0 and toks[i - 1][0] == 'close' and (not strict or ((i - 1) in closed and has_trigger(closed[i - 1])))
+            before_ok = bool(o['comment.before']) and i + 1 < len(toks) and toks[i + 1][0] == 'open' and has_trigger(toks[i + 1])
+            if not (after_ok or before_ok):
+                return 'comment %r (item %d) stands neither directly after the closing tag nor directly before the opening tag of an element with a trigger attribute: %r' % (
+                    t[1], i, toks[max(0, i - 1):i + 2])
     if o['comment.before'] == '' and o['comment.after'] == '\n<!-- /[#ID][.CLASS] -->' and '<!--' not in out_off:
         nl, base, ind = o['output.newline'], o['output.baseIndent'], o['output.indent']
         pat = re.escape(nl + base) + '(?:' + re.escape(ind) + ')*' + r'<!-- /[^\r\n]*? -->' if ind else \
